@@ -124,7 +124,7 @@ pub fn check(c: &Case) -> Verdict {
 }
 
 /// well-formed pieces that a deserializer skips, merges or trims
-const NOISE: &[&str] = &[
+pub const NOISE: &[&str] = &[
     "<zz><x>1</x>t</zz>", "<zz>t<x/></zz>", "<zz><x>1</x>\n </zz>", "<zz>\n <x>1</x>\n</zz>", "<zz/>", "<zz a=\"1\"><![CDATA[c]]><q/></zz>", "<zz><zz>t</zz>u</zz>",
     "<zz xmlns:xsi=\"http://www.w3.org/2001/XMLSchema-instance\" xsi:nil=\"true\">c<x/></zz>", "<u/>", "<us>text<x/></us>",
     " ", "\n  ", " t", " tail", "\tx ", "t ", " 42", "<![CDATA[ c]]>", "<![CDATA[]]>", "<!-- c -->", "<?pi d?>", " &amp; ", "&#32;", "&#x20;t",
